@@ -23,7 +23,7 @@ use crate::utils::query::Query;
 use crate::utils::validation::LEGACY_DID_IDENTIFIER;
 
 use anoncreds_clsignatures::{
-    NonCredentialSchema, PredicateType, Proof, ProofVerifier, SubProof,
+    NonCredentialSchema, Predicate, PredicateType, Proof, ProofVerifier, SubProof,
 };
 use once_cell::sync::Lazy;
 use regex::Regex;
@@ -108,7 +108,8 @@ pub fn verify_presentation(
             .get_predicates_for_credential(sub_proof_index as u32);
 
         let (_, attrs_nonrevoked_interval) = pres_req.get_requested_attributes(&attributes)?;
-        let (_, pred_nonrevoked_interval) = pres_req.get_requested_predicates(&predicates)?;
+        let (requested_predicates, pred_nonrevoked_interval) =
+            pres_req.get_requested_predicates(&predicates)?;
 
         {
             check_non_revoked_interval(
@@ -133,6 +134,9 @@ pub fn verify_presentation(
                     sub_proof_index
                 )
             })?;
+        // every predicate requested from this credential must be the one its sub-proof proves
+        verify_requested_predicates(&requested_predicates, sub_proof)?;
+
         proof_verifier.add_sub_proof(
             sub_proof,
             &identifier.schema_id,
@@ -333,6 +337,27 @@ fn verify_revealed_attribute_values(
                 err_msg!("Proof Revealed Attr Group does not match Proof Request Attribute Group",)
             })?;
             verify_revealed_attribute_value(attr_name, sub_proof, &attr_info.encoded)?;
+        }
+    }
+    Ok(())
+}
+
+fn verify_requested_predicates(requested: &[Predicate], sub_proof: &SubProof) -> Result<()> {
+    let proven = sub_proof.predicates();
+    for predicate in requested {
+        let found = proven.iter().any(|p| {
+            attr_common_view(&p.attr_name) == attr_common_view(&predicate.attr_name)
+                && p.p_type == predicate.p_type
+                && p.value == predicate.value
+        });
+        if !found {
+            return Err(err_msg!(
+                ProofRejected,
+                "Requested predicate \"{} {:?} {}\" is not proven by the presentation",
+                predicate.attr_name,
+                predicate.p_type,
+                predicate.value
+            ));
         }
     }
     Ok(())
